@@ -586,7 +586,8 @@ def _gen_reduce(axis_tuple=True, keepdims=True, mindim=1):
             kw["axis"] = axis_of(g, ndim)
         else:
             count = g.rng.randint(1, ndim)
-            kw["axis"] = g.rng.sample(range(ndim), count)
+            kw["axis"] = [ax - ndim if g.rng.random() < 0.4 else ax
+                          for ax in g.rng.sample(range(ndim), count)]
         if g.rng.random() < 0.15:
             kw["axis"] = None
         if keepdims and g.rng.random() < 0.4:
@@ -608,6 +609,35 @@ Op("sum", "reduce", _gen_reduce(),
    lambda ns, ops, kw: ns.sum(ops[0], **_axis_kw(kw)),
    lambda mods, kw: M.m_reduce(M.m_sum_list, mods[0], **_axis_kw(kw)),
    method=lambda ops, kw: ops[0].sum(**_axis_kw(kw)))
+
+
+def _gen_sum_where(g):
+    case = _gen_reduce(mindim=1)(g)
+    shape = tuple(case["operands"][0]["shape"])
+    mask_shape = g.rng.choice([shape, shape[-1:], shape])
+    case["kw"]["where"] = g.array_data(mask_shape, "bool", zero_prob=0.0)
+    case["kw"]["where_shape"] = list(mask_shape)
+    return case
+
+
+def _where_kw(kw):
+    out = _axis_kw(kw)
+    out["where"] = numpy.array(kw["where"], dtype=bool).reshape(kw["where_shape"])
+    return out
+
+
+def _sum_where_model(mods, kw):
+    mask = numpy.broadcast_to(numpy.array(kw["where"], dtype=bool).reshape(kw["where_shape"]),
+                              mods[0].shape)
+    masked = numpy.empty(mods[0].shape, dtype=object)
+    for idx in numpy.ndindex(*mods[0].shape):
+        masked[idx] = mods[0][idx] if mask[idx] else M.MP()
+    return M.m_reduce(M.m_sum_list, masked, **_axis_kw(kw))
+
+
+Op("sum_where", "reduce", _gen_sum_where,
+   lambda ns, ops, kw: ns.sum(ops[0], **_where_kw(kw)), _sum_where_model,
+   method=lambda ops, kw: ops[0].sum(**_where_kw(kw)), npname="sum")
 
 
 def _mean_fold(items):
@@ -860,7 +890,7 @@ Op("outer", "linalg", _gen_outer, lambda ns, ops, kw: ns.outer(ops[0], ops[1]), 
 
 def _gen_matmul(g):
     n, k, m = (g.rng.choice([1, 2, 3]) for _ in range(3))
-    form = g.rng.choice(["mm", "mm", "vm", "mv", "vv", "stacked", "bcast"])
+    form = g.rng.choice(["mm", "mm", "vm", "mv", "vv", "stacked", "bcast", "bcast_rev", "bcast2"])
     if form == "mm":
         sa, sb = (n, k), (k, m)
     elif form == "vm":
@@ -871,6 +901,10 @@ def _gen_matmul(g):
         sa, sb = (k,), (k,)
     elif form == "stacked":
         sa, sb = (2, n, k), (2, k, m)
+    elif form == "bcast_rev":
+        sa, sb = (n, k), (2, k, m)
+    elif form == "bcast2":
+        sa, sb = (2, 1, n, k), (3, k, m)
     else:
         sa, sb = (2, n, k), (k, m)
     a = _small(g, sa)
@@ -1088,7 +1122,8 @@ def _gen_axis_reduce(keepdims=True, axis_tuple=False, mindim=0):
         ndim = len(shape)
         if ndim and g.rng.random() < 0.7:
             if axis_tuple and g.rng.random() < 0.3:
-                kw["axis"] = g.rng.sample(range(ndim), g.rng.randint(1, ndim))
+                kw["axis"] = [ax - ndim if g.rng.random() < 0.4 else ax
+                              for ax in g.rng.sample(range(ndim), g.rng.randint(1, ndim))]
             else:
                 kw["axis"] = axis_of(g, ndim)
         if keepdims and g.rng.random() < 0.35:
